@@ -58,11 +58,12 @@ def _run_main(ctx):
         fnp = U + 'populate_host_and_port'
         rows = P.table(ctx, fnp, ['url'])
         site = ctx.site(fnp)
-        NOHOST = '(!url::Url::has_host(url) || (Some("") == url::Url::host_str(url)))'
-        r.check('rows', len(rows) == 6, site, built=len(rows), expected='{host missing?} x {amqp, amqps, other}')
+        # host missing: no host at all, or a host that is the empty string (the two ways `!has_host || host == ""` holds)
+        HAS, EMPTY = 'url::Url::has_host(url)', '(Some("") == url::Url::host_str(url))'
+        r.check('rows', len(rows) == 9, site, built=len(rows), expected='{no host, empty host, host present} x {amqp, amqps, other}')
         for x in rows:
-            miss = x.conds[0] == (NOHOST, True)
-            present = x.conds[:2] == [('url::Url::has_host(url)', True), ('(Some("") == url::Url::host_str(url))', False)]
+            miss = x.conds[0] == (HAS, False) or x.conds[:2] == [(HAS, True), (EMPTY, True)]
+            present = x.conds[:2] == [(HAS, True), (EMPTY, False)]
             schs = [c[1] for c in x.conds if c[0] == 'url::Url::scheme(url)']
             if not r.check('row:%s' % '&'.join(x.cond_strs()), (miss or present) and len(schs) == 1 and isinstance(schs[0], str), site, built=x.cond_strs(), expected='{host missing or empty | host present} x scheme'):
                 continue
@@ -78,7 +79,8 @@ def _run_main(ctx):
                 r.check(key + ':port', ports == ['url::Url::set_port(url, Some(std::option::Option::unwrap_or(url::Url::port(url), 5671)))'] and x.value_str() == 'Ok(%sScheme::Amqps)' % U, site, built=(ports, x.value_str()))
             else:
                 r.check(key + ':invalid-scheme', sch == 'not "amqp" | "amqps"' and x.value_str() == 'Err(errors::Error::InvalidUrlScheme{url: url})' and not ports, site, built=(sch, x.value_str()))
-        r.check('host-condition', len([x for x in rows if x.conds[0] == (NOHOST, True)]) == 3, site, built=rows[0].conds[0][0] if rows else None, expected=NOHOST)
+        r.check('host-condition', len([x for x in rows if x.conds[0] == (HAS, False)]) == 3 and len([x for x in rows if x.conds[:2] == [(HAS, True), (EMPTY, True)]]) == 3, site,
+                built=[x.cond_strs()[:2] for x in rows], expected='!has_host(url) || host_str(url) == Some("")')
         # decode: ordered script
         scr, evs, ret = A.fn_script(ctx, U + 'decode')
         site = ctx.site(U + 'decode')
